@@ -55,6 +55,10 @@ class History:
             style={ns: rng.choice(['func', 'class']) for ns in served},
             coroutines=rng.random() < 0.7)
         self.r = S.Runner(self.cfg)
+        # the application's disconnect handlers (function style) look at the
+        # session of the departing client: it is still that client's session
+        self.disc_reads = []
+        self._register_disconnect_readers()
         self.conn = {}          # (T, ns) -> sid
         self.model = {}         # (sid, ns) -> dict
         self.epochs = {}        # (T, ns) -> number of accepted connections
@@ -63,6 +67,52 @@ class History:
         self.marker = 0
         self.ops = []
         self.failed = False
+
+    def _register_disconnect_readers(self):
+        sio, reads = self.r.sio, self.disc_reads
+        for ns in self.cfg['served']:
+            if self.cfg['style'].get(ns, 'func') != 'func':
+                continue
+            if self.r.d.is_async:
+                def mk(ns):
+                    async def on_disconnect(sid, reason):
+                        try:
+                            v = copy.deepcopy(await sio.get_session(
+                                sid, namespace=ns))
+                            async with sio.session(sid, namespace=ns):
+                                pass
+                        except Exception as e:
+                            v = 'raised %s' % type(e).__name__
+                        reads.append((sid, ns, v))
+                    return on_disconnect
+            else:
+                def mk(ns):
+                    def on_disconnect(sid, reason):
+                        try:
+                            v = copy.deepcopy(sio.get_session(
+                                sid, namespace=ns))
+                            with sio.session(sid, namespace=ns):
+                                pass
+                        except Exception as e:
+                            v = 'raised %s' % type(e).__name__
+                        reads.append((sid, ns, v))
+                    return on_disconnect
+            sio.on('disconnect', mk(ns), namespace=ns)
+
+    def check_disconnect_reads(self, expected, res):
+        """expected: {(sid, ns): model value} of the sessions that ended."""
+        reads, self.disc_reads[:] = list(self.disc_reads), []
+        for sid, ns, v in reads:
+            if (sid, ns) not in expected:
+                continue
+            self.ctx.count('session_reads_in_disconnect_handler')
+            if not R.deep_eq(v, expected[(sid, ns)]):
+                return self.fail(
+                    'the disconnect handler of %r on %r read the session as '
+                    '%r, the model says %r' % (sid, ns, v,
+                                               expected[(sid, ns)]), res,
+                    {'expected': copy.deepcopy(expected[(sid, ns)]),
+                     'got': v})
 
     def witness(self, res, extra=None):
         w = {'case_index': self.index, 'kind': self.kind,
@@ -227,16 +277,19 @@ class History:
             else:
                 op = ['lose', T]
             self.ops.append(op)
-            self.r.step(op)
+            del self.disc_reads[:]
+            res = self.r.step(op)
+            expected = {}
             if op[0] == 'lose':
                 self.open_T.remove(T)
                 for key in [k2 for k2 in self.conn if k2[0] == T]:
                     s = self.conn.pop(key)
-                    del self.model[(s, key[1])]
+                    expected[(s, key[1])] = self.model.pop((s, key[1]))
             else:
                 del self.conn[(T, ns)]
-                del self.model[(sid, ns)]
+                expected[(sid, ns)] = self.model.pop((sid, ns))
             ctx.count('disconnects')
+            self.check_disconnect_reads(expected, res)
             return
         if r < 0.5:
             v = self.value(T, ns)
@@ -352,6 +405,7 @@ def run(ctx):
     ctx.require('duplicate_connects', 5)
     ctx.require('session_blocks_nested', 5)
     ctx.require('session_blocks_across_reconnect', 5)
+    ctx.require('session_reads_in_disconnect_handler', 20)
     ctx.require('session_blocks_left_by_exception', 5)
     # threaded server: a re-CONNECT racing the end of the old connection
     from checks import c16_sched
